@@ -177,6 +177,55 @@ def pv_oracle(tracedir, sysd, events):
     return probs
 
 
+# Paraver types that are emulator-defined *state* types whatever their PCF
+# entry looks like: thread state, CPU affinity, task type (nOS-V, Nanos6),
+# breakdown rows
+STATE_TYPES = {4, 6, 11, 36, 17, 41}
+
+
+def pv_selfcheck(tracedir, expect_rows=None):
+    """C13 on whatever .prv files a run left in `tracedir` (thread, cpu and the
+    optional breakdown traces), using only the files themselves."""
+    import glob
+    probs = []
+    for prvp in sorted(glob.glob(os.path.join(tracedir, "*.prv"))):
+        name = os.path.basename(prvp)[:-4]
+        try:
+            prv = Prv(prvp)
+            pcf = read_pcf(os.path.join(tracedir, name + ".pcf"))
+            rows, nrows = read_rows(os.path.join(tracedir, name + ".row"))
+        except Exception as e:      # noqa: BLE001
+            probs.append(f"{name}: output unreadable: {e}")
+            continue
+        if prv.bad_lines:
+            probs.append(f"{name}.prv: malformed line {prv.bad_lines[0][:60]}")
+        last = None
+        for (t, row, ty, val) in prv.records:
+            if last is not None and t < last:
+                probs.append(f"{name}.prv: timestamp goes backwards {last} -> {t}")
+                break
+            last = t
+        for (t, row, ty, val) in prv.records:
+            if not (1 <= row <= (prv.nrows or 0)):
+                probs.append(f"{name}.prv: row {row} outside the declared 1..{prv.nrows}")
+                break
+        if prv.records and prv.records[-1][0] > prv.duration:
+            probs.append(f"{name}.prv: record at {prv.records[-1][0]} after the declared duration {prv.duration}")
+        for (t, row, ty, val) in prv.records:
+            if ty not in pcf:
+                probs.append(f"{name}.prv: type {ty} not declared in {name}.pcf")
+                break
+        for (t, row, ty, val) in prv.records:
+            if ty in pcf and (pcf[ty][1] or ty in STATE_TYPES) and val != 0 and val not in pcf[ty][1]:
+                probs.append(f"{name}.prv: value {val} of state type {ty} ({pcf[ty][0].strip()}) has no label in {name}.pcf")
+                break
+        if nrows != prv.nrows or len(rows) != (prv.nrows or 0):
+            probs.append(f"{name}.row: declares {nrows} rows and names {len(rows)}, {name}.prv declares {prv.nrows}")
+        if expect_rows and name in expect_rows and rows != expect_rows[name]:
+            probs.append(f"{name}.row: names {rows[:4]} differ from the documented order {expect_rows[name][:4]}")
+    return probs
+
+
 def impl_result(bdir, tracedir, sysd, events, lint=True, extra_opts=(), post=None):
     streams = build_streams(sysd, events)
     write_trace(tracedir, streams)
